@@ -161,6 +161,20 @@ Definition n_exit := [95; 95; 95; 101; 120; 105; 116].            (* "___exit" *
 
 Record lstate := mkL { l_bus : bus; l_er : regs; l_exit : Z }.
 
+(* one symbol of .symtab: ___exit sets the exit address *)
+Definition sym_step (strs : list Z) (acc : option lstate) (sy : sym) : option lstate :=
+  match acc with
+  | None => None
+  | Some st1 =>
+    match slice_from strs (st_name sy) with
+    | Some nm => match parse_str nm with          (* a name that does not parse reads "Error" *)
+                 | Some s => if bytes_eq s n_exit then Some (mkL (l_bus st1) (l_er st1) ((st_value sy + PROGRAM_START_ADDR) mod 4294967296)) else Some st1
+                 | None => Some st1
+                 end
+    | None => None        (* slice index out of range *)
+    end
+  end.
+
 (* the per-section actions of load() *)
 Definition do_section (f : list Z) (sht : list shdr) (phs : list phdr) (args : list Z) (name : list Z) (sh : shdr) (st : lstate)
   : option lstate :=
@@ -186,18 +200,7 @@ Definition do_section (f : list Z) (sht : list shdr) (phs : list phdr) (args : l
     | Some sl, Some strh =>
       match rd_count (Z.to_nat (sh_size sh / sh_entsize sh)) parse_symbol32 sl, slice_from f (sh_offset strh) with
       | Some (syms, _), Some strs =>
-        fold_left (fun acc sy =>
-                match acc with
-                | None => None
-                | Some st1 =>
-                  match slice_from strs (st_name sy) with
-                  | Some nm => match parse_str nm with          (* a name that does not parse reads "Error" *)
-                               | Some s => if bytes_eq s n_exit then Some (mkL (l_bus st1) (l_er st1) ((st_value sy + PROGRAM_START_ADDR) mod 4294967296)) else Some st1
-                               | None => Some st1
-                               end
-                  | None => None        (* slice index out of range *)
-                  end
-                end) syms (Some st)
+        fold_left (sym_step strs) syms (Some st)
       | _, _ => None
       end
     | _, _ => None
